@@ -225,6 +225,35 @@ def run(ctx):
                 bad.setdefault("real-dtype-linear:" + kind, ("%s is not linear when x is stored in a real dtype" % kind, {"operator": repr(B)}))
         except Exception as e:
             bad.setdefault("real-dtype-exception", ("operator raised %r on a real-dtype input" % e, {"error": repr(e)}))
+    # history determinism: operators that differ only in a parameter (convolution strides, modes) applied in interleaved order --
+    # an operator must give the same output for the same input whatever other operators ran in between
+    try:
+        lin = sp.linop
+        pool = []
+        for D, dsh, fsh, strides in ((1, [8], [3], ([1], [2], [3], [4])), (1, [6], [3], ([2], [3])), (2, [5, 6], [2, 3], ([1, 2], [2, 1], [2, 2], [1, 1]))):
+            filt = lingen.gint(rng, fsh, True, -3, 3)
+            data = lingen.gint(rng, dsh, True, -3, 3)
+            for mode in ("full", "valid"):
+                for st in strides:
+                    pool.append(lin.ConvolveData(dsh, filt, mode=mode, strides=st).H)
+                    pool.append(lin.ConvolveFilter(fsh, data, mode=mode, strides=st).H)
+                    pool.append(lin.ConvolveData(dsh, filt, mode=mode, strides=st))
+        rng.shuffle(pool)
+        ins = [lingen.gint(rng, list(B.ishape), True, -4, 4) for B in pool]
+        first = [np.asarray(B(x.copy())).copy() for B, x in zip(pool, ins)]
+        for rnd_ in range(2):
+            order = list(range(len(pool)))
+            rng.shuffle(order)
+            for i in order:
+                again = np.asarray(pool[i](ins[i].copy()))
+                ctx.count("C02:history:conv", key=(i, rnd_), nontrivial=True)
+                if again.shape != first[i].shape or not np.array_equal(again, first[i]):
+                    bad.setdefault("history-determinism:conv", ("%r gives a different output for the same input after other convolution operators (other strides / modes) "
+                                                                "were applied in between (max diff %.3g)" % (pool[i], float(np.abs(again - first[i]).max()) if again.shape == first[i].shape else -1),
+                                                                {"operator": repr(pool[i]), "input": ins[i].tolist().__repr__(),
+                                                                 "first_output": first[i].tolist().__repr__(), "later_output": again.tolist().__repr__()}))
+    except Exception as e:
+        bad.setdefault("history-exception", ("the interleaved convolution stream raised %r" % e, {"error": repr(e)}))
     new_static = static_scan(ctx)
     ctx.obligation("static:in-place writes through parameter aliases match the reviewed baseline", not new_static)
     if new_static and not any(k.startswith("mutation") for k in bad):
